@@ -91,22 +91,14 @@ Definition module_capture (s : bytes) : option bytes :=
       match try r with
       | Some c => Some c
       | None =>
-          (* give back whitespace: the longest suffix of ws made of non-EOL whitespace
-             (space, tab, form feed) that can start the capture, leaving >= 1 for \s+ *)
-          let tail_ws := rev (fst (span (fun c => is_re_space c && not_eol c) (rev ws))) in
-          (* candidates: give back j >= 1 trailing bytes, j < length ws, smallest j first
-             (greedy \s+ prefers consuming more) *)
-          (fix cand (j : nat) (fuel : nat) : option bytes :=
-             match fuel with
-             | O => None
-             | S f =>
-                 if Nat.ltb j (List.length ws) && Nat.leb j (List.length tail_ws) then
-                   match try (skipn (List.length tail_ws - j) tail_ws ++ r) with
-                   | Some c => Some c
-                   | None => cand (S j) f
-                   end
-                 else None
-             end) 1 (List.length ws)
+          (* \s+ gives back whitespace, one byte at a time (at least one byte stays): the
+             capture then starts inside the whitespace run, at a space, tab or form feed,
+             possibly on a later line than the directive ("module \n \n" captures " ") *)
+          (fix giveback (a : bytes) : option bytes :=
+             match a with
+             | [] => None
+             | _ :: a' => match giveback a' with Some c => Some c | None => try (a ++ r) end
+             end) (tl ws)
       end
   end.
 
